@@ -926,10 +926,13 @@ def learn_and_prepopulate(ctx, rng, cfg, scratch, folder, n_dirs):
     fnames = fnames or ["detector_image.fits"]
     os.makedirs(folder, exist_ok=True)
     made = []
+    names = list(dict.fromkeys(names))
     for k, name in enumerate(names):
         if rng.random() < 0.15 and k > 0:
             continue
         path = os.path.join(folder, name)
+        if os.path.lexists(path):
+            continue
         if k > 0 and rng.random() < 0.3:
             with open(path, "wb") as fh:
                 fh.write(b"a plain file with the name of a run directory")
